@@ -79,7 +79,40 @@ type uwproc struct {
 var (
 	uwMu    sync.Mutex
 	uwProcs = map[int]*uwproc{}
+	uwExe   string // a copy of this executable that the unprivileged id can reach and run
 )
+
+// uwPrepare copies the running executable into dir (world-traversable) and
+// checks that a child under the unprivileged id starts and answers.  A non-empty
+// result says why unprivileged replay is not possible in this environment.
+func uwPrepare(dir string) string {
+	if os.Geteuid() != 0 {
+		return fmt.Sprintf("not started privileged (euid %d)", os.Geteuid())
+	}
+	src, err := os.ReadFile(os.Args[0])
+	if err != nil {
+		if exe, e2 := os.Executable(); e2 == nil {
+			src, err = os.ReadFile(exe)
+		}
+	}
+	if err != nil {
+		return "cannot read own executable: " + err.Error()
+	}
+	uwExe = filepath.Join(dir, "vh-unpriv")
+	if err := os.WriteFile(uwExe, src, 0755); err != nil {
+		return "cannot place the executable: " + err.Error()
+	}
+	os.Chmod(uwExe, 0755)
+	probe := filepath.Join(dir, "probe.tgz")
+	os.WriteFile(probe, []byte{}, 0644)
+	pd := filepath.Join(dir, "probe-dst")
+	os.Mkdir(pd, 0755)
+	os.Lchown(pd, unprivID, unprivID)
+	if _, infra := unprivUnpack(-1, []byte{}, probe, pd); infra != "" {
+		return infra
+	}
+	return ""
+}
 
 func uwGet(w int) (*uwproc, error) {
 	uwMu.Lock()
@@ -90,7 +123,7 @@ func uwGet(w int) (*uwproc, error) {
 	if os.Geteuid() != 0 {
 		return nil, fmt.Errorf("unprivileged replay needs to start privileged (euid %d)", os.Geteuid())
 	}
-	cmd := exec.Command(os.Args[0], "unpackw")
+	cmd := exec.Command(uwExe, "unpackw")
 	cmd.SysProcAttr = &syscall.SysProcAttr{Credential: &syscall.Credential{Uid: unprivID, Gid: unprivID}}
 	cmd.Dir = "/"
 	cmd.Env = []string{"PATH=/usr/bin:/bin", "HOME=/", "TMPDIR=/tmp"}
